@@ -147,7 +147,7 @@ GEN_EQUIV = "GoSSE.Proofs.GenEquiv"
 GEN_EQUIV_MODS = ["GoSSE.Proofs.GenEquiv", "GoSSE.Proofs.GenEquivQueue", "GoSSE.Proofs.GenEquivFields",
                   "GoSSE.Proofs.GenEquivScan", "GoSSE.Proofs.GenEquivWrite", "GoSSE.Proofs.GenEquivReplay",
                   "GoSSE.Proofs.GenEquivUnmarshal"]
-GEN_MODS = ["Parser", "Root", "Bufio", "Fields", "Write", "Replay", "Unmarshal"]   # in import order
+GEN_MODS = ["Parser", "Root", "Bufio", "Fields", "Write", "Replay", "Unmarshal", "Event"]   # in import order
 
 
 def _theorem_at(path, lineno):
